@@ -178,6 +178,10 @@ func (req *GetBlockRequest) Validate() error {
 }
 
 func parseGetBlockRequest(raw *json.RawMessage) (*GetBlockRequest, error) {
+	if raw == nil {
+		// the request has no "params" member
+		return nil, fmt.Errorf("params are missing")
+	}
 	var params []any
 	if err := fasterJson.Unmarshal(*raw, &params); err != nil {
 		return nil, fmt.Errorf("failed to unmarshal params: %w", err)
@@ -322,6 +326,10 @@ func isAnyEncodingOf(s solana.EncodingType, anyOf ...solana.EncodingType) bool {
 }
 
 func parseGetTransactionRequest(raw *json.RawMessage) (*GetTransactionRequest, error) {
+	if raw == nil {
+		// the request has no "params" member
+		return nil, fmt.Errorf("params are missing")
+	}
 	var params []any
 	if err := fasterJson.Unmarshal(*raw, &params); err != nil {
 		return nil, fmt.Errorf("failed to unmarshal params: %w", err)
@@ -667,6 +675,10 @@ func encodeBytesResponseBasedOnWantedEncoding(
 }
 
 func parseGetBlockTimeRequest(raw *json.RawMessage) (uint64, error) {
+	if raw == nil {
+		// the request has no "params" member
+		return 0, fmt.Errorf("params are missing")
+	}
 	var params []any
 	if err := fasterJson.Unmarshal(*raw, &params); err != nil {
 		return 0, fmt.Errorf("failed to unmarshal params: %w", err)
